@@ -132,6 +132,8 @@ def cases_for(rng, n, ctx, tmp):
             mode['v'] = mv
         cid = 'z-%04d-%s-%s-%s-%s%s-%s' % (i, fmt, transport, 'gz' if gz else 'plain', mk, '' if mk not in ('int', 'str') else str(mv), kind)
         cases.append({'id': cid, 'ev': 'zeuthen', 'fmt': fmt, 'isdobs': fmt == 'dobs', 'mode': mode, 'before': before, 'after': _after(y)})
+        if i % 2 == 0:
+            cases.append({'id': cid + '-source', 'ev': 'roundtrip', 'fmt': 'the exported list itself after the export', 'before': before, 'after': _after(ol)})
         if not isinstance(y, Exception) and mk == 'true' and [o.N for o in y] == [o.N for o in ol]:
             cases.append({'id': cid + '-reanalysis', 'ev': 'reanalysis', 'before': dn0, 'after': analysis_numbers(y)})
         ctx.nontrivial.add((fmt, transport, gz, mk, kind, len(ol), i))
